@@ -549,6 +549,49 @@ Theorem C01_missing_block_example :
 Proof. exact RejectExamples.ex_missing_block. Qed.
 Print Assumptions C01_missing_block_example.
 
+(* the first test of a test list and the test of `not`: an unknown name, the name of an action or control, any other token -- rejected at that token *)
+Theorem C01_inner_test_rejected :
+  forall T : tables,
+  twf_tables T = true ->
+  forall (text : bytes) (pre : list token) (tn tl : token) (more : list token) 
+    (t : token) (rest : list token) (L : list bytes) (prev : option bytes) 
+    (k : nat) (d : cmddef) (a : argdef) (dl : cmddef),
+  wf_prefix T (map strip_pos pre) L prev k ->
+  fst (lex text) = pre ++ tn :: tl :: more ++ t :: rest ->
+  t_kind tn = TIdentifier ->
+  get_command_instance T L (t_val tn) = inl d ->
+  d_type d = CControl ->
+  d_accept_children d = true ->
+  d_args d = [a] ->
+  is_t1 a = true ->
+  t_kind tl = TIdentifier ->
+  get_command_instance T L (t_val tl) = inl dl ->
+  d_type dl = CTest ->
+  iscomplete (new_frame dl (at_of a)) None = false ->
+  d_expected_first dl = Some [TLeftParen] /\
+  (exists lp : token, more = [lp] /\ t_kind lp = TLeftParen) \/
+  d_expected_first dl = Some [TIdentifier] /\ more = [] ->
+  not_comment (t_kind t) = true ->
+  match t_kind t with
+  | TIdentifier =>
+      match get_command_instance T L (t_val t) with
+      | inl d' =>
+          d_type d' <> CTest ->
+          parse T text = Reject (ENotTest (d_name d')) (t_pos t) (Datatypes.length (t_val t))
+      | inr e => parse T text = Reject e (t_pos t) (Datatypes.length (t_val t))
+      end
+  | _ => parse T text = Reject EExpected (t_pos t) (Datatypes.length (t_val t))
+  end.
+Proof. exact RejectFacts.inner_test_rejected. Qed.
+Print Assumptions C01_inner_test_rejected.
+
+(* non-vacuity: `if anyof (foo, true)` (with ex_action_after_not, ex_string_after_not) *)
+Theorem C01_inner_test_examples :
+  parse gen_tables (bs (px_text ++ "if anyof (foo, true) { } }")) =
+  Reject (EUnknownCommand (bs "foo")) 56 3.
+Proof. exact RejectExamples.ex_unknown_in_test_list. Qed.
+Print Assumptions C01_inner_test_examples.
+
 (* in the arguments of a test that still needs arguments: a tag it does not take, a tag whose extension is not loaded, a value of the wrong type -- rejected at that token *)
 Theorem C01_test_argument_rejected :
   forall T : tables,
@@ -604,7 +647,7 @@ Theorem C01_misplaced_else_example :
 Proof. exact RejectExamples.ex_misplaced_else. Qed.
 Print Assumptions C01_misplaced_else_example.
 
-(* non-vacuity on the generated tables (one of twenty-two examples in sieve/RejectExamples.v: prefix `require ["fileinto"]; if size :over 100K {`) *)
+(* non-vacuity on the generated tables (one of twenty-five examples in sieve/RejectExamples.v: prefix `require ["fileinto"]; if size :over 100K {`) *)
 Theorem C01_reject_examples :
   let text := bs (px_text ++ "foo ""x""; }") in
   parse gen_tables text = Reject (EUnknownCommand (bs "foo")) 46 3 /\
